@@ -278,9 +278,10 @@ Proof.
   vm_compute. apply Exists_cons_hd. reflexivity.
 Qed.
 
-(* the recovery of a separated list does the same: `foo(y,` -> three diagnostics at 0:0-0:0 *)
+(* the recovery of a separated list does the same: `foo(y,` -> a diagnostic at 0:0-0:0 (three copies of it while a
+   failed method-call parse was not memoised and the call parser ran three times at that position) *)
 Theorem C09_eof_diag_refuted_seplist :
-  length (filter (fun d => N.eqb (pline (rstart (drange d))) 0) (cdiags (snd (parse_gold (fst (lex w_sep)))))) = 3%nat.
+  length (filter (fun d => N.eqb (pline (rstart (drange d))) 0) (cdiags (snd (parse_gold (fst (lex w_sep)))))) = 1%nat.
 Proof. vm_compute. reflexivity. Qed.
 
 (* ---------- 4. C09_missing_end ---------- *)
